@@ -287,6 +287,13 @@ def refute(pid, key, label, obname, repo_src, replay_dir, seed=0, first_verdict=
     if ob is None:
         info["note"] = "obligation not regenerated"
         return info
+    if hasattr(c, "native_witness"):
+        # units that are not plain functions (the CLI module tail) bring their own replay on the real program
+        try:
+            info.update(c.native_witness(obname, repo_src) or {})
+        except Exception as e:
+            info["note"] = f"native witness failed: {type(e).__name__}: {e}"
+        return info
     axioms = list(rr.ctx.global_axioms) + (list(c.extra_axioms(rr.ctx)) if hasattr(c, "extra_axioms") else [])
     info["goal"] = str(z3.simplify(ob.goal))[:2000]
     attempts = []
